@@ -212,6 +212,7 @@ def check(an: Analysis) -> None:
         # dominating comparison
         tests = [n for n in g.nodes if n.kind == "test" and isinstance(n.ast, ast.Compare) and len(n.ast.ops) == 1 and any(dotted(x) == "self._entries" for x in ast.walk(n.ast)) and not any(isinstance(x, ast.Call) and is_name(x.func, "len") for x in ast.walk(n.ast))]
         ok = False
+        boundary_wrong: list[ast.AST] = []
         for t in tests:
             c: ast.Compare = t.ast  # type: ignore[assignment]
             l, r = linear_form(d, c.left), linear_form(d, c.comparators[0])
@@ -225,21 +226,27 @@ def check(an: Analysis) -> None:
             neg = {k: -v for k, v in want.items()}
             opn = type(c.ops[0])
             lab = None
-            if diff == want and opn in (ast.LtE, ast.Lt):
+            # the boundary belongs to "expired": a caller that slept `entries[0] + period - now` wakes exactly when the oldest start
+            # is one period old, and the caller queued behind it must not find that start still in the window
+            if diff == want and opn is ast.LtE:
                 lab = "T"
-            elif diff == neg and opn in (ast.GtE, ast.Gt):
+            elif diff == neg and opn is ast.GtE:
                 lab = "T"
-            elif diff == want and opn in (ast.Gt, ast.GtE):
+            elif diff == want and opn is ast.Gt:
                 lab = "F"
-            elif diff == neg and opn in (ast.Lt, ast.LtE):
+            elif diff == neg and opn is ast.Lt:
                 lab = "F"
+            elif (diff == want or diff == neg) and opn in (ast.Lt, ast.LtE, ast.Gt, ast.GtE):
+                boundary_wrong.append(c)
             if lab is None:
                 continue
             w = g.search([g.entry], lambda n: n is pnode, skip_edge=lambda a, b, l2, t=t, lab=lab: a is t and l2 == lab)
             if w is None:
                 ok = True
                 ob.inst(f, c, "purge condition")
-        if not ok:
+        if not ok and boundary_wrong:
+            ob.fail(f, boundary_wrong[0], "a start exactly one period old is kept in the window (strict comparison): the caller that waited `entries[0] + period - now` wakes exactly then, and the next caller still counts the expired start - its wait is computed as 0 and one call too many begins at that instant")
+        elif not ok:
             ob.fail(f, pnode.ast, "entries are dropped under a condition other than `entries[0] + period <= now`: live starts are forgotten (limit exceeded) or dead ones kept")
         for s in sleeps:
             w = g.search([g.entry], lambda n: n is s, skip_node=lambda n: n in loops)
